@@ -13,7 +13,10 @@ fn good_lines() -> Vec<String> {
     let mut v = vec![];
     for (n, k, _) in VARS.iter() {
         match k {
-            Kind::S => v.push(format!("{}=v {}", n, n.to_lowercase())),
+            Kind::S => {
+                v.push(format!("{}=v {}", n, n.to_lowercase()));
+                v.push(format!("{}=", n));
+            }
             Kind::I => {
                 v.push(format!("{}=12", n));
                 v.push(format!("{}=-3", n));
@@ -25,7 +28,6 @@ fn good_lines() -> Vec<String> {
         }
     }
     // repeats of single-valued variables (last one wins) and awkward values
-    v.push("COMMENT=".into());
     v.push("COMMENT=trailing blank ".into());
     v.push("OPSYS= ".into());
     v.push("LICENSE=tab\t".into());
